@@ -1,32 +1,50 @@
 import DesperProofs.Lemmas.WorldQuery
+import DesperProofs.Lemmas.WorldReenter
 /-
   C01 — World queries always agree on who owns which component.
 
   Model: DesperModel/World.lean.  `run U s₀ ops` is the state after ANY finite sequence of World
   operations (create with automatic or imposed ids, add, replace, remove, deferred or immediate
   delete, process, clear, processors, dispatch toggles — raising callbacks included), so every
-  statement below holds after every prefix of every history.  `row s e` is the entity's row of
+  statement below holds after every prefix of every history.  The hypothesis `ReactInv U` says what
+  the callbacks may do back to the world: anything that preserves the table invariant.  It holds
+  (`C01_callbacks_passive`) when callbacks make no nested call besides `delete_entity`, and
+  (`C01_callbacks_reentrant`) in every universe `U.tie script fuel` — callbacks that carry out ANY
+  scripted sequences of World operations on the same world (add, remove, delete, create, processors,
+  …), nested to any depth, in the middle of the operation that called them.  `row s e` is the entity's row of
   `_entities`, `idx s t` the set `_components[t]`; `Sub U t' t`: `t'` is `t` or a subclass of it.
 -/
 open Desper Desper.World
 
+/-- Callbacks that make no nested call (besides marking entities for deletion) preserve the table
+invariant. -/
+theorem C01_callbacks_passive (U : Universe) [hn : U.NoReenter] : ReactInv U := by
+  intro s o m k x h
+  rw [hn.noReenter]; exact h
+
+/-- Callbacks that call back into the same world — `script o m k` is the list of World operations the
+k-th invocation of method `m` of object `o` performs, entity 0 standing for the entity the callback is
+told about — preserve the table invariant, nested to any depth. -/
+theorem C01_callbacks_reentrant (U : Universe) (script : Obj → String → Nat → List Op) (fuel : Nat) :
+    ReactInv (U.tie script fuel) := reactInv_tie U script fuel
+
 /-- The two tables never disagree: an entity is in the index of a type iff its row has a component
 filed under that type; a component is filed under its exact type; empty rows do not exist. -/
-theorem C01_transpose (U : Universe) [U.NoReenter] (hints : List (List Ent)) (ops : List Op) :
+theorem C01_transpose (U : Universe) (hR : ReactInv U) (hints : List (List Ent)) (ops : List Op) :
     let s := run U { sweepHints := hints } ops
     (∀ e t, e ∈ idx s t ↔ (Dict.get? (row s e) t).isSome) ∧
     (∀ e t c, Dict.get? (row s e) t = some c → tyOf U c = t) ∧
     (∀ e r, Dict.get? s.ents e = some r → r ≠ []) := by
-  have h := tabInv_run (tabInv_init U hints) ops
+  have h := run_inv hR (tabInv_init U hints) ops
   exact ⟨h.transpose, h.rowTyped, h.noEmptyRow⟩
 
 /-- `get(T)` lists exactly one `(entity, component)` pair for every attached component whose type
 is `T` or a subclass of `T`, and nothing else. -/
-theorem C01_get (U : Universe) [U.NoReenter] (hU : U.WF) (hints : List (List Ent)) (ops : List Op) (t : Ty) :
+theorem C01_get (U : Universe) (hR : ReactInv U) (hU : U.WF) (hints : List (List Ent)) (ops : List Op) (t : Ty) :
     let s := run U { sweepHints := hints } ops
     (∀ e c, (e, c) ∈ World.get U s t ↔ ∃ st, Sub U st t ∧ Dict.get? (row s e) st = some c) ∧
     (World.get U s t).Nodup := by
-  have h := tabInv_run (tabInv_init U hints) ops
+  have h := run_inv hR (tabInv_init U hints) ops
   generalize run U { sweepHints := hints } ops = s at h
   refine ⟨?_, ?_⟩
   · intro e c
@@ -76,19 +94,19 @@ theorem C01_get (U : Universe) [U.NoReenter] (hU : U.WF) (hints : List (List Ent
       exact hne ((h.rowTyped e1 st1 c1 hc1).symm.trans (h.rowTyped e1 st2 c1 hc2))
 
 /-- `get_components(e)` returns precisely the components attached to `e`. -/
-theorem C01_get_components (U : Universe) [U.NoReenter] (hints : List (List Ent)) (ops : List Op) (e : Ent)
+theorem C01_get_components (U : Universe) (hR : ReactInv U) (hints : List (List Ent)) (ops : List Op) (e : Ent)
     (c : Obj) :
     let s := run U { sweepHints := hints } ops
     c ∈ getComponents s e ↔ ∃ t, Dict.get? (row s e) t = some c := by
-  have h := tabInv_run (tabInv_init U hints) ops
+  have h := run_inv hR (tabInv_init U hints) ops
   exact Dict.mem_values_iff _ (h.rowKeys e) c
 
 /-- `get(object)` — the query by the root of every hierarchy — lists precisely the attached
 components, one pair per (entity, component). -/
-theorem C01_get_object (U : Universe) [U.NoReenter] (hints : List (List Ent)) (ops : List Op) (e : Ent) (c : Obj) :
+theorem C01_get_object (U : Universe) (hR : ReactInv U) (hints : List (List Ent)) (ops : List Op) (e : Ent) (c : Obj) :
     let s := run U { sweepHints := hints } ops
     (e, c) ∈ getAll s ↔ ∃ t, Dict.get? (row s e) t = some c := by
-  have h := tabInv_run (tabInv_init U hints) ops
+  have h := run_inv hR (tabInv_init U hints) ops
   intro s
   simp only [getAll, List.mem_flatMap, List.mem_map, Prod.mk.injEq, Prod.exists]
   constructor
@@ -109,11 +127,11 @@ theorem C01_get_object (U : Universe) [U.NoReenter] (hints : List (List Ent)) (o
 
 /-- `entities` / `entity_exists` name exactly the entities that own at least one component and
 are not awaiting deletion; `entities` lists each once. -/
-theorem C01_entities (U : Universe) [U.NoReenter] (hints : List (List Ent)) (ops : List Op) (e : Ent) :
+theorem C01_entities (U : Universe) (hR : ReactInv U) (hints : List (List Ent)) (ops : List Op) (e : Ent) :
     let s := run U { sweepHints := hints } ops
     (e ∈ entities s ↔ (row s e ≠ [] ∧ e ∉ s.dead)) ∧
     (entityExists s e = true ↔ (row s e ≠ [] ∧ e ∉ s.dead)) ∧ (entities s).Nodup := by
-  have h := tabInv_run (tabInv_init U hints) ops
+  have h := run_inv hR (tabInv_init U hints) ops
   generalize run U { sweepHints := hints } ops = s at h
   have key : (Dict.get? s.ents e).isSome ↔ row s e ≠ [] := by
     cases hg : Dict.get? s.ents e with
@@ -151,4 +169,21 @@ private def exU : Universe :=
 example :
     let s := run exU {} [.create (some 1) [0], .add 1 2, .create none [1], .delete 1 false]
     World.get exU s 0 = [(1, 2), (2, 1)] ∧ entities s = [2] ∧ (step exU (run exU {} [.create (some 1) [0]]) (.create none [1])).2.2 = "2" := by
+  decide
+
+/-! non-vacuity of the re-entrant part: the `on_remove` callback of component 0 adds component 1 to the
+entity it is being removed from, in the middle of `remove_component`; the tables agree afterwards. -/
+private def reU : Universe :=
+  { classes := [{ bases := [] }, { bases := [] }],
+    mapping := fun t => if t = 0 then some [("on_remove", "on_remove")] else none,
+    objTy := fun o => some o,
+    raises := fun _ _ _ => none }
+
+private def reScript : Obj → String → Nat → List Op := fun o m k =>
+  if o = 0 ∧ m = "on_remove" ∧ k = 0 then [.add 0 1] else []
+
+example :
+    let V := reU.tie reScript 2
+    let s := run V {} [.create none [0], .remove 1 0]
+    getComponents s 1 = [1] ∧ World.get V s 1 = [(1, 1)] ∧ World.get V s 0 = [] ∧ entities s = [1] := by
   decide
